@@ -103,14 +103,39 @@ def eb_dist(rs):
         d["not_all_started"] += (len(o) - 3) // 2 < n
     return d
 
+def tcpc_dist(rs):
+    d = {"cases": len(rs), "skipped_unreliable": 0, "candidates": {}, "outcomes": {}, "with_hang_candidate": 0, "bind6": 0}
+    for r in rs:
+        parts = [p.split() for p in r["input"].split(";")]
+        if r["obs"] == "unreliable":
+            d["skipped_unreliable"] += 1
+            continue
+        d["bind6"] += parts[0][-1] == "1"
+        ks = [p[0] for p in parts[1:] if p]
+        d["with_hang_candidate"] += "hang" in ks
+        for k in ks:
+            d["candidates"][k] = d["candidates"].get(k, 0) + 1
+        o = r["obs"].split()[0]
+        d["outcomes"][o] = d["outcomes"].get(o, 0) + 1
+    return d
+
+TCPC_STREAM = {"name": "tcpc", "quick": 50, "thorough": 2000, "sep": ";", "batch": 500,
+               "nontrivial": lambda r: len(r["input"].split(";")) > 2, "distribution": tcpc_dist}
 EB_STREAMS = [{"name": "eb", "quick": 6000, "thorough": 200000, "head": 5, "unit": 2, "exhaustive": "eb-exhaustive",
-               "nontrivial": eb_nontrivial, "distribution": eb_dist}]
+               "nontrivial": eb_nontrivial, "distribution": eb_dist}, TCPC_STREAM]
 EB_RULE = ("scripted attempts (n<=5; latency none/0/grid, outcome ok/err) x stagger delay {none,0,..50} x overall timeout {none,0,..200} "
            "x initial concurrency {none,0..n+1} on the real EyeballSet under tokio's paused clock; thorough adds the full grid n<=3 "
-           "(65184 cases, exhaustive over that grid); plus the TcpConnecting delay glue via its trace event; non-trivial = n>=2")
+           "(65184 cases, exhaustive over that grid); plus the TcpConnecting delay glue via its trace event; non-trivial = n>=2 | tcpc: the real "
+           "TcpTransport::connect_to_addrs on loopback sockets in real time - 1-5 candidates that accept at once (IPv4/IPv6 listener), refuse "
+           "at once (closed port) or never answer (listener with a full accept queue), happy_eyeballs_timeout none/300/600 ms, concurrency "
+           "none/1/2, per-attempt connect_timeout none/120 ms, optionally an unassignable local IPv6 address so that IPv6 candidates fail during "
+           "set-up; compared with the composition address order (C16 model) -> TcpConnecting glue (delay = deadline / candidates) -> "
+           "happy-eyeballs model: winner or kind of the first error, elapsed time within 70 ms, and no listener accepted a connection for a "
+           "candidate the model never starts; ties and cases during which the machine stalled are skipped")
 EB_ASSUMES = ["tokio timer semantics under the paused clock (inner future polled before the timer; timers fire at their deadline)",
               "FuturesUnordered polls newly pushed futures in push order and returns the first ready one",
-              "two attempts due at the same instant may complete in either order (compared by specification only)"]
+              "two attempts due at the same instant may complete in either order (compared by specification only)",
+              "tcpc: loopback connects and refusals take under a few milliseconds; a SYN to a listener with a full accept queue is dropped (Linux)"]
 
 def to_nontrivial(r):
     t = r["input"].split()
@@ -242,7 +267,7 @@ def np_dist(rs):
 
 def tls_nontrivial(r):
     t = r["input"].split()
-    return t[1] == "1" and t[3].lower() in ("https", "wss")
+    return t[1] in ("1", "2") and t[3].lower() in ("https", "wss")
 
 def tls_dist(rs):
     d = {"tls_configured": 0, "secure_scheme": 0, "secure_scheme_odd_case": 0, "host_dns": 0, "host_ipv4": 0, "host_ipv6": 0,
@@ -250,7 +275,8 @@ def tls_dist(rs):
     for r in rs:
         t = r["input"].split()
         o = r["obs"].split()
-        d["tls_configured"] += t[1] == "1"
+        d["tls_configured"] += t[1] in ("1", "2")
+        d["tls_configured_twice"] = d.get("tls_configured_twice", 0) + (t[1] == "2")
         d["secure_scheme"] += t[3].lower() in ("https", "wss")
         d["secure_scheme_odd_case"] += t[3].lower() in ("https", "wss") and t[3] != t[3].lower()
         h = t[4]
@@ -592,7 +618,7 @@ PROPS = {
                 "http/https/ws/wss/HTTPS/Wss/foo/httpss x 20 host forms (DNS incl. wildcard one/two labels, upper case, trailing dot, "
                 "underscore; IPv4; three bracketed IPv6, an IPv4-mapped one and two bracketed hosts that are no IPv6 address - zone identifier, too few groups; URI-legal names rustls rejects) x ports x ALPN none/h2/http1.1/both on either "
                 "side; the URI either parsed from a string or assembled with Uri::builder (scheme spelling kept); optionally a caller-supplied "
-                "Host header naming another host. Every run includes the exhaustive grid scheme x host x peer x {TLS configured, not} "
+                "Host header naming another host; 1 case in 6 configures TLS twice (first a configuration trusting the untrusted peer's CA, then the intended one - the last one must be in force). Every run includes the exhaustive grid scheme x host x peer x {TLS configured, not} "
                 "(+ from-parts / Host-header variants for the good and plaintext peers) plus the 4x4 ALPN square (4928 cases) besides the random cases. After a successful connect the client writes a marker through the stream; "
                 "observed: caller result, first raw bytes at the peer (TLS record / ASCII), marker visible raw, SNI parsed from the "
                 "raw ClientHello by the harness' own parser, negotiated ALPN, marker received through TLS. "
